@@ -987,4 +987,48 @@ theorem pick_pick {α} (l : List α) (ix : List Nat) (r : List α) (h : pick l i
 example : pick [65, 67, 71, 84] [3, 0, 2] = some [84, 65, 71] ∧ pick [3, 0, 2] [1, 1, 0] = some [0, 0, 3]
     ∧ pick [84, 65, 71] [1, 1, 0] = some [65, 65, 84] ∧ pick [65, 67, 71, 84] [0, 0, 3] = some [65, 65, 84] := by decide
 
+theorem maskPositions_bounds : ∀ (m : List Bool) (i : Nat), ∀ p ∈ maskPositions i m, i ≤ p ∧ p < i + m.length := by
+  intro m
+  induction m with
+  | nil => intro i p hp; simp [maskPositions] at hp
+  | cons b bs ih =>
+    intro i p hp
+    unfold maskPositions at hp
+    split at hp
+    · rcases List.mem_cons.mp hp with rfl | hp
+      · simp
+      · have := ih (i + 1) p hp; simp only [List.length_cons]; omega
+    · have := ih (i + 1) p hp; simp only [List.length_cons]; omega
+
+theorem maskPositions_nodup : ∀ (m : List Bool) (i : Nat), (maskPositions i m).Nodup := by
+  intro m
+  induction m with
+  | nil => intro i; simp [maskPositions]
+  | cons b bs ih =>
+    intro i
+    unfold maskPositions
+    split
+    · refine List.nodup_cons.mpr ⟨?_, ih (i + 1)⟩
+      intro hmem
+      have := maskPositions_bounds bs (i + 1) i hmem
+      omega
+    · exact ih (i + 1)
+
+/-- **C07.mask_assign_get** — `f[m] = v` followed by `f[m]` reads back `v`, for every boolean mask of the
+operand's length and every `v` with one value per selected position. -/
+theorem mask_assign_get {α} (l vs : List α) (m : List Bool) (h : m.length = l.length)
+    (hv : vs.length = (maskPositions 0 m).length) :
+    pick (scatter l (maskPositions 0 m) vs) (maskPositions 0 m) = some vs :=
+  scatter_get _ l vs (maskPositions_nodup m 0)
+    (fun p hp => by have := maskPositions_bounds m 0 p hp; omega) hv
+
+/-- positions outside the mask keep their character -/
+theorem mask_assign_other {α} (l vs : List α) (m : List Bool) (q : Nat) (hq : q ∉ maskPositions 0 m) :
+    (scatter l (maskPositions 0 m) vs)[q]? = l[q]? := by
+  exact scatter_other q _ l vs hq
+
+/-- non-vacuity: `f = "ACGT"; f[[T,F,T,F]] = "NN"` gives `"NCNT"` and reads back `"NN"` -/
+example : scatter [65, 67, 71, 84] (maskPositions 0 [true, false, true, false]) [78, 78] = [78, 67, 78, 84]
+    ∧ pick [78, 67, 78, 84] (maskPositions 0 [true, false, true, false]) = some [78, 78] := by decide
+
 end C07
